@@ -84,6 +84,13 @@ CLAIMED["C03"] = {
     "technique": "contract-based deductive verification: reduction to convex-hull membership with explicit witnesses (zonotope lemma), qhull/solver contracts instantiated at ghost points, exact polynomial identities + z3",
 }
 
+CLAIMED["C06"] = {
+    "text": "The real _range_of_solutions is explored path by path (every feasible acceptance pattern of its candidate basic solutions; row selection by a symbolic mask is folded into If-terms) for an enumerated family of concrete rational capture matrices in general position with symbolic target, bounds and competitor: EVERY in-bound x with A x == b lies between the returned mins and maxs, each end is attained by an accepted basic solution (a feasible point, A cand == b proved as identity), min <= max and both within the bounds; _spaced_solutions rows reproduce the target and stay within the bounds; range_of_solutions applies K/baseline, gates on the membership contract with one common offset, hands the baseline-subtracted target to the helper, raises ValueError or returns the best fit for out-of-gamut rows, rejects non-underdetermined systems; estimator dispatch.",
+    "design_ref": "DESIGN.md section 6 C06",
+    "note": A_COMMON + " A is enumerated (concrete 2x3 matrices quick; 2x4, 3x4, 3x5 thorough) while b, lb, ub, x are symbolic: the step to all A is the LP vertex theorem (cited, not proved). np.linalg.solve is exact. The exact float comparisons at gamut vertices are a recorded known finding (float-only).",
+    "technique": "contract-based deductive verification: exhaustive symbolic path exploration of the real function, linear-arithmetic obligations with Skolem competitor, If-case-split + exact identities",
+}
+
 NOT_APPLICABLE = {}
 
 FIX_COMMITS = ["b2d156a (np.trapz -> trapezoid)", "1caec1a (negative fit targets no longer declared positive cvxpy parameters)", "f3b37fa (batched_iteration bs > n)", "b98cd56 (poisson baseline tiling)", "d30d941 (minimize .copy())", "35d91a0 (minimize reshape order)", "b90b02d (minimize padded slack)", "7019c2d (excitation baseline)", "3901923 (excitation per-sample)", "b370f4e (adaptive default solver)", "cef6319 (gamut apex = capture at lb)"]
